@@ -9,9 +9,11 @@ import (
 	"errors"
 	"fmt"
 	"io"
+	"net"
 	"net/http"
 	"net/http/httptest"
 	"sync"
+	"time"
 
 	"github.com/gobwas/ws"
 	"github.com/gobwas/ws/wsutil"
@@ -152,6 +154,9 @@ type env struct {
 	sd    protoreflect.ServiceDescriptor
 	fd    protoreflect.FileDescriptor
 	muxes map[int]*larking.Mux
+	// optMuxes: default-limit muxes built with further options (server
+	// option dimension of the socket lanes), keyed by option class
+	optMuxes map[string]*larking.Mux
 
 	mu      sync.Mutex
 	recs    map[string]*rec
@@ -175,24 +180,46 @@ func newEnv(r *mon.Run, limits []int) (*env, error) {
 		if _, ok := e.muxes[L]; ok {
 			continue
 		}
-		reg, err := vschema.Registry(e.fd)
-		if err != nil {
-			return nil, err
-		}
-		opts := []larking.MuxOption{larking.FilesOption(reg)}
+		var opts []larking.MuxOption
 		if L > 0 {
 			opts = append(opts, larking.MaxReceiveMessageSizeOption(L))
 		}
-		mux, err := larking.NewMux(opts...)
+		mux, err := e.newMux(opts...)
 		if err != nil {
-			return nil, err
-		}
-		if err := larking.VerifRegisterService(mux, vschema.ServiceDesc(e.sd, e), struct{}{}); err != nil {
 			return nil, err
 		}
 		e.muxes[L] = mux
 	}
+	e.optMuxes = map[string]*larking.Mux{}
+	for opt, d := range map[string]time.Duration{"conn-timeout-small": connTimeoutSmall, "conn-timeout-large": time.Hour} {
+		mux, err := e.newMux(larking.ConnectionTimeoutOption(d))
+		if err != nil {
+			return nil, err
+		}
+		e.optMuxes[opt] = mux
+	}
 	return e, nil
+}
+
+// connTimeoutSmall is the small ConnectionTimeoutOption of the server-option
+// lanes; paced clients keep their streams open several times longer.
+const connTimeoutSmall = 200 * time.Millisecond
+
+const urlPrefix = "/api" // MuxHandleOption lanes
+
+func (e *env) newMux(extra ...larking.MuxOption) (*larking.Mux, error) {
+	reg, err := vschema.Registry(e.fd)
+	if err != nil {
+		return nil, err
+	}
+	mux, err := larking.NewMux(append([]larking.MuxOption{larking.FilesOption(reg)}, extra...)...)
+	if err != nil {
+		return nil, err
+	}
+	if err := larking.VerifRegisterService(mux, vschema.ServiceDesc(e.sd, e), struct{}{}); err != nil {
+		return nil, err
+	}
+	return mux, nil
 }
 
 func (e *env) close() {
@@ -206,24 +233,33 @@ func (e *env) close() {
 
 // server returns (starting it on first use) the real server for a mux limit
 // and a fragmenting-listener width (0 = plain listener).
-func (e *env) server(limit, frag int) (*wire.Server, error) {
+//
+// opt selects the server-option class: "" none, "conn-timeout-small" /
+// "conn-timeout-large" a mux built with ConnectionTimeoutOption, "prefix" a
+// server built with MuxHandleOption(urlPrefix+"/").
+func (e *env) server(limit, frag int, opt string) (*wire.Server, error) {
 	e.mu.Lock()
 	defer e.mu.Unlock()
-	k := fmt.Sprintf("%d/%d", limit, frag)
+	k := fmt.Sprintf("%d/%d/%s", limit, frag, opt)
 	if s, ok := e.servers[k]; ok {
 		return s, nil
 	}
 	mux, ok := e.muxes[limit]
+	if m, isOpt := e.optMuxes[opt]; isOpt {
+		mux, ok = m, true
+	}
 	if !ok {
 		return nil, fmt.Errorf("no mux for limit %d", limit)
 	}
-	var s *wire.Server
-	var err error
-	if frag > 0 {
-		s, err = wire.StartLarking(mux, wire.Frag(frag))
-	} else {
-		s, err = wire.StartLarking(mux, nil)
+	var sopts []larking.ServerOption
+	if opt == "prefix" {
+		sopts = append(sopts, larking.MuxHandleOption(urlPrefix+"/"))
 	}
+	var wrap func(net.Listener) net.Listener
+	if frag > 0 {
+		wrap = wire.Frag(frag)
+	}
+	s, err := wire.StartLarking(mux, wrap, sopts...)
 	if err != nil {
 		return nil, err
 	}
